@@ -1,7 +1,7 @@
 #!/bin/bash
 # run_all.sh [quick|thorough]: every claimed check in sequence; prints exit code and wall time per property
 TIER=${1:-quick}
-cd /verif
+cd "$(dirname "$0")/.."
 for p in $(python3 -c "import json; print(' '.join(c['property_id'] for c in json.load(open('MANIFEST.json'))['checks']))"); do
   s=$(date +%s)
   out=$(bin/vcheck $p --tier $TIER 2>&1); rc=$?
